@@ -522,3 +522,162 @@ def streams_wiring(vc):
 from pyvc.harness import reuse as _reuse
 _reuse("C06/crypto.registry", "C16/crypto.registry(create_AES128->registered-adapter(key,iv))")
 _reuse("C06/pad", "C16/crypto.pad=zero-padding-to-16")
+
+
+# ---------------------------------------------------------------------------------------
+# the final step of each feeder family (what is done with the 0..31 bytes kept back), with the mode's encrypt / decrypt
+# recorded:
+#  block modes    default padding: the PKCS7-padded rest (16 or 32 bytes) block by block, in order; padding "none": exactly one
+#                 block or an error; decrypt: strip(decrypt(rest))
+#  segment (CFB)  the rest filled with zero bytes to whole segments, run through the mode, cut back to the length of the rest
+#  stream         the rest as it is; padding "none" and default only
+FINAL_LENS = (0, 1, 15, 16, 17, 31)
+
+
+@proof("C16/feeder.final-step", functions=[(FEED, "_block_final_encrypt"), (FEED, "_block_final_decrypt"), (FEED, "_segment_final_encrypt"),
+                                           (FEED, "_segment_final_decrypt"), (FEED, "_stream_final_encrypt"), (FEED, "_stream_final_decrypt"),
+                                           (FEED, "_segment_can_consume"), (FEED, "_stream_can_consume"), (FEED, "_block_can_consume")],
+       family=lambda seed, tier: [dict(n=n, seg=seg, rest=bytes((7 * i + n) % 256 for i in range(n))) for n in FINAL_LENS for seg in (1, 8, 16)])
+def final_step(vc):
+    F = vc.module(FEED)
+    n = vc.choice("n", list(FINAL_LENS))
+    seg = vc.choice("seg", [1, 8, 16])
+    rest = vc.bytes("rest", n)
+    calls = []
+
+    class Mode:
+        segment_bytes = seg
+
+        def encrypt(self, x):
+            calls.append(("enc", x))
+            return b"E" * len(x) if not vc.symbolic else x
+
+        def decrypt(self, x):
+            calls.append(("dec", x))
+            return b"D" * len(x) if not vc.symbolic else x
+
+    m = Mode()
+    # block modes
+    pad = 16 - n % 16
+    padded = vc.cat(rest, bytes([pad]) * pad)
+    calls.clear()
+    out = vc.call(F._block_final_encrypt, m, rest, F.PADDING_DEFAULT)
+    want_calls = [("enc", padded[:16])] + ([("enc", padded[16:])] if n >= 16 else [])
+    vc.prove("block.default: PKCS7-padded-rest-block-by-block-in-order", out.returned and len(calls) == len(want_calls)
+             and all(c[0] == w[0] and c[1] == w[1] for c, w in zip(calls, want_calls)), repr(out.exc))
+    out = vc.call(F._block_final_encrypt, m, rest, F.PADDING_NONE)
+    vc.prove("block.none: exactly-one-block-or-an-error", (out.returned and n == 16) or (not out.returned and n != 16))
+    out = vc.call(F._block_final_encrypt, m, rest, "other")
+    vc.prove("block: unknown-padding-option-refused", not out.returned)
+    calls.clear()
+    out = vc.call(F._block_final_decrypt, m, rest, F.PADDING_NONE)
+    vc.prove("block.decrypt.none: exactly-one-block-or-an-error", (out.returned and n == 16 and calls == [("dec", rest)] if n == 16
+                                                                   else not out.returned))
+    vc.prove("block.can_consume=whole-blocks", F._block_can_consume(m, n) == 16 * (n // 16))
+    # segment modes
+    calls.clear()
+    fill = seg - n % seg
+    out = vc.call(F._segment_final_encrypt, m, rest, F.PADDING_DEFAULT)
+    vc.prove("segment: zero-filled-to-whole-segments,one-call,cut-back-to-the-rest's-length", out.returned and len(calls) == 1
+             and calls[0][0] == "enc" and calls[0][1] == vc.cat(rest, bytes(fill)) and vc.len(out.value) == n, repr(out.exc))
+    calls.clear()
+    out = vc.call(F._segment_final_decrypt, m, rest, F.PADDING_DEFAULT)
+    vc.prove("segment.decrypt: zero-filled-to-whole-segments,one-call,cut-back", out.returned and len(calls) == 1
+             and calls[0][0] == "dec" and calls[0][1] == vc.cat(rest, bytes(fill)) and vc.len(out.value) == n, repr(out.exc))
+    out = vc.call(F._segment_final_encrypt, m, rest, F.PADDING_NONE)
+    vc.prove("segment: only-the-default-option", not out.returned)
+    vc.prove("segment.can_consume=whole-segments", F._segment_can_consume(m, n) == seg * (n // seg))
+    # stream modes
+    for opt in (F.PADDING_NONE, F.PADDING_DEFAULT):
+        calls.clear()
+        out = vc.call(F._stream_final_encrypt, m, rest, opt)
+        out2 = vc.call(F._stream_final_decrypt, m, rest, opt)
+        vc.prove("stream: the-rest-as-it-is[%s]" % opt, out.returned and out2.returned and calls == [("enc", rest), ("dec", rest)])
+    out = vc.call(F._stream_final_encrypt, m, rest, "other")
+    vc.prove("stream: unknown-padding-option-refused", not out.returned)
+    vc.prove("stream.can_consume=everything", F._stream_can_consume(m, n) == n)
+    vc.cover("final")
+
+
+# ---------------------------------------------------------------------------------------
+# end to end on the real cipher (bounded, labelled): every mode x key size x padding option through Encrypter / Decrypter /
+# encrypt_stream / decrypt_stream with the input cut at random places == the one-shot result of spec/aes197.py
+
+def fam_e2e(seed, tier):
+    import random
+    rnd = random.Random(seed)
+    lens = [0, 1, 15, 16, 17, 31, 32, 33, 47, 48, 49, 100] if tier == "quick" else list(range(0, 70)) + [100, 255, 256, 257]
+    for mode in ("ECB", "CBC", "CFB1", "CFB8", "CFB16", "OFB", "CTR"):
+        for kl in (16, 24, 32):
+            for n in lens:
+                if tier == "quick" and kl != 16 and n not in (0, 17, 48):
+                    continue
+                yield dict(mode=mode, key=bytes(rnd.randrange(256) for _ in range(kl)), iv=bytes(rnd.randrange(256) for _ in range(16)),
+                           data=bytes(rnd.randrange(256) for _ in range(n)), cuts=sorted(rnd.randrange(n + 1) for _ in range(rnd.choice([0, 1, 2, 5]))),
+                           bs=rnd.choice([1, 7, 16, 17, 8192]))
+
+
+@proof("C16/feeders.end-to-end", functions=[(FEED, "Encrypter.__init__"), (FEED, "Decrypter.__init__"), (FEED, "BlockFeeder.feed"),
+                                            (FEED, "encrypt_stream"), (FEED, "decrypt_stream"), (FEED, "_feed_stream")],
+       family=fam_e2e, bounded_only=True)
+def feeders_e2e(vc):
+    import io
+    M = vc.module(MOD)
+    F = vc.module(FEED)
+    U = vc.module(UTIL)
+    mode, key, iv, data, cuts, bs = (vc._get(k) for k in ("mode", "key", "iv", "data", "cuts", "bs"))
+    n = len(data)
+
+    def mk():
+        if mode == "ECB":
+            return M.AESModeOfOperationECB(key)
+        if mode == "CBC":
+            return M.AESModeOfOperationCBC(key, iv)
+        if mode.startswith("CFB"):
+            return M.AESModeOfOperationCFB(key, iv, segment_size=int(mode[3:]))
+        if mode == "OFB":
+            return M.AESModeOfOperationOFB(key, iv)
+        return M.AESModeOfOperationCTR(key, M.Counter(int.from_bytes(iv, "big") % (1 << 100)))
+
+    def spec(x, enc):
+        if mode == "ECB":
+            return (A.ecb_encrypt if enc else A.ecb_decrypt)(key, x)
+        if mode == "CBC":
+            return (A.cbc_encrypt if enc else A.cbc_decrypt)(key, iv, x)
+        if mode.startswith("CFB"):
+            return (A.cfb_encrypt if enc else A.cfb_decrypt)(key, iv, x, int(mode[3:]))
+        if mode == "OFB":
+            return A.ofb_crypt(key, iv, x)
+        return A.ctr_crypt(key, int.from_bytes(iv, "big") % (1 << 100), x)
+
+    def run(feeder, x):
+        out, last = b"", 0
+        for c in [c for c in cuts if c <= len(x)] + [len(x)]:
+            out += feeder.feed(x[last:c])
+            last = c
+        return out + feeder.feed()
+
+    block = mode in ("ECB", "CBC")
+    pad = 16 - n % 16
+    if block:
+        want = spec(data + bytes([pad]) * pad, True)
+    elif mode.startswith("CFB"):
+        s = int(mode[3:])
+        want = spec(data + bytes(s - n % s), True)[:n]
+    else:
+        want = spec(data, True)
+    got = vc.call(run, F.Encrypter(mk()), data)
+    vc.prove("Encrypter(any-split)=one-shot-standard-result", got.returned and got.value == want, repr(got.exc))
+    back = vc.call(run, F.Decrypter(mk()), want)
+    vc.prove("Decrypter(any-split)-inverts", back.returned and back.value == data, repr(back.exc))
+    o = io.BytesIO()
+    s1 = vc.call(F.encrypt_stream, mk(), io.BytesIO(data), o, bs)
+    vc.prove("encrypt_stream(any-block-size)=same", s1.returned and o.getvalue() == want, repr(s1.exc))
+    o2 = io.BytesIO()
+    s2 = vc.call(F.decrypt_stream, mk(), io.BytesIO(want), o2, bs)
+    vc.prove("decrypt_stream-inverts", s2.returned and o2.getvalue() == data, repr(s2.exc))
+    if block and n % 16 == 0 and n > 0:
+        got = vc.call(run, F.Encrypter(mk(), padding=F.PADDING_NONE), data)
+        vc.prove("padding-none: whole-blocks-unpadded", got.returned and got.value == spec(data, True), repr(got.exc))
+        back = vc.call(run, F.Decrypter(mk(), padding=F.PADDING_NONE), spec(data, True))
+        vc.prove("padding-none: decrypts", back.returned and back.value == data, repr(back.exc))
